@@ -1096,3 +1096,29 @@ M('c01-progress-wrapper-seek-drops-whence', 'C01', "        return self._stream.
 M('c09-wrapper-drops-no-holes', 'C09', "            stream_list=stream_list,\n            compress=compress,\n            no_holes=no_holes,", "            stream_list=stream_list,\n            compress=compress,", 'C09.R7')
 M('c05-wrapper-drops-do-commit', 'C05', "            do_fsync=do_fsync,\n            do_commit=do_commit,\n        )\n\n    def loosen_object", "            do_fsync=do_fsync,\n        )\n\n    def loosen_object", 'C05.R7')
 M('c02-valid-hashkey-fixed-length', 'C02', "        if not all(char in '0123456789abcdef' for char in hashkey):\n            return False\n        return True", "        if len(hashkey) != 64 or not all(char in '0123456789abcdef' for char in hashkey):\n            return False\n        return True", 'C02.R3')
+
+# ------------------------------------------------------------------------------------------------ rules added in seeding round 3 (one-edit versions of the seeds)
+M('c07-carry-over-only-relative', 'C07', "            self._lazy_uncompressed_stream.seek(self._pos, 0)\n", "            if whence == 1:\n                self._lazy_uncompressed_stream.seek(self._pos, 0)\n", 'C07.R5', U)
+M('c11-delete-rmdir-parent', 'C11', "                deleted_loose.add(hashkey)\n            except FileNotFoundError:", "                deleted_loose.add(hashkey)\n                os.rmdir(self._get_loose_path_from_hashkey(hashkey).parent)\n            except FileNotFoundError:", 'C11.R1')
+M('c12-sort-staged-rows', 'C12', "                if obj_dicts:\n                    # Here I shouldn't need to do `OR IGNORE`", "                if obj_dicts:\n                    obj_dicts.sort(key=lambda row: row['hashkey'])\n                    # Here I shouldn't need to do `OR IGNORE`", 'C12.R4')
+M('c18-copyfileobj-object-sized-buffer', 'C18', """                        while True:
+                            chunk = read_handle.read(self._CHUNKSIZE)
+                            if chunk == b'':
+                                # Returns an empty bytes object on EOF.
+                                break
+                            write_pack_handle.write(chunk)
+                    else:""", """                        shutil.copyfileobj(read_handle, write_pack_handle, length)
+                    else:""", 'C18.R5')
+M('c09-verifier-none-on-oserror', 'C09', "    except FileNotFoundError:\n        return None\n", "    except OSError:\n        return None\n", 'C09.R1', U)
+M('c01-publish-handler-widened', 'C01', "                        os.rename(self._obj_path, dest_loose_object)\n                    except FileExistsError:", "                        os.rename(self._obj_path, dest_loose_object)\n                    except (FileExistsError, PermissionError):", 'C01.R2', U)
+M('c17-publish-handler-widened', 'C17', "                        os.rename(self._obj_path, dest_loose_object)\n                    except FileExistsError:", "                        os.rename(self._obj_path, dest_loose_object)\n                    except (FileExistsError, PermissionError):", 'C17.R2p', U)
+M('c13-cache-not-reset-on-clear', 'C13', """            self._config = None
+            self._current_pack_id = None
+
+        if self.is_initialised:""", """            self._config = None
+
+        if self.is_initialised:""", 'C13.R2s')
+M('c16-has-object-own-fast-path', 'C16', "        return self.has_objects([hashkey])[0]", "        if self._get_loose_path_from_hashkey(hashkey).exists():\n            return True\n        return self._get_operation_session().execute(select(Obj.id).where(Obj.hashkey == hashkey).limit(1)).first() is not None", 'C16.R2')
+M('c04-has-object-own-fast-path', 'C04', "        return self.has_objects([hashkey])[0]", "        if self._get_loose_path_from_hashkey(hashkey).exists():\n            return True\n        return self._get_operation_session().execute(select(Obj.id).where(Obj.hashkey == hashkey).limit(1)).first() is not None", 'C04.Pr0')
+M('c05-repack-update-inside-copy-loop', 'C05', "                    obj_dicts.append(obj_dict)\n                    if callback:\n                        callback('update', obj_dict['size'])", "                    obj_dicts.append(obj_dict)\n                    if len(obj_dicts) >= 1000:\n                        session.bulk_update_mappings(Obj, obj_dicts)\n                        obj_dicts = []\n                    if callback:\n                        callback('update', obj_dict['size'])", 'C05.R4')
+M('c12-validator-limited-read', 'C12', "computed_hash, computed_size = compute_hash_and_size(obj_reader, self.hash_type)", "computed_hash, computed_size = compute_hash_and_size(obj_reader, self.hash_type, size)", 'C12.R2')
